@@ -123,6 +123,8 @@ def build_dag(n, edges, names=NAMES, cls=None, order=None):
                 g.change_edge_type(names[i], names[j], '->' if k % 4 == 1 else _directed())
             else:
                 retype.append((names[i], names[j]))
+        elif (n + 5 * k + len(edges)) % 4 == 1:
+            g.add_edge(names[i], names[j], validate=False)         # (the graph is a DAG by construction: nothing to validate)
         else:
             g.add_edge(names[i], names[j])
     for a, b in retype:
